@@ -16,7 +16,7 @@ def check(ctx):
         "<haystack::val::dict::Dict as haystack::val::dict::HaystackDict>::dis", "haystack::val::dict::decode_str_from_value")
         or b.short.endswith("as regex::Replacer>::replace_append")]
     rep.floor("display-name entry points", len(E), 4)
-    pr = panic.PanicRule(ctx)
+    pr = panic.PanicRule(ctx, parsed_timestamps_only=True)
     reach, nsites = pr.run(E, rep)
     rep.floor("potential panic sites on the display path", nsites, 4)
     rep.assume("A2: regex::Regex::replace_all and Captures behave as documented (group 0 always present)")
